@@ -17,7 +17,7 @@ from .common import (Case, HELD, VIOLATED, INCONCLUSIVE, bad_outcome, diag_list,
 ID = "C01"
 LEVEL = "exploration"
 BUILDS = ["rel"]
-BUDGET_S = {"quick": 170, "thorough": 3000}
+BUDGET_S = {"quick": 600, "thorough": 3000}
 RULE = ("Pairs of repository states: 1-4 generated files (19 suffixes, nested and sibling blocks, one-line and multi-line tag "
         "comments, LF/CRLF), `affects` references of every shape (same-file, cross-file, comma lists with spaces, cycles, "
         "duplicate names, missing blocks and files); edit scripts of 1-12 line insertions, deletions, 1:1 and unequal "
